@@ -232,3 +232,34 @@ package server
 //@   ensures case reject:  ret1 != nil ==> ret0 == nil && exists(j, 0, len(allowedIP), slen(trimS(allowedIP[j])) != 0 && !entryOK(trimS(allowedIP[j])))
 //@   ensures case listed:  ret1 == nil ==> forall(j, 0, len(allowedIP), slen(trimS(allowedIP[j])) != 0 ==> entryOK(trimS(allowedIP[j])) && exists(k, 0, len(ret0), entryIs(ret0[k], trimS(allowedIP[j]))))
 //@   ensures case only:    ret1 == nil ==> forall(k, 0, len(ret0), exists(j, 0, len(allowedIP), slen(trimS(allowedIP[j])) != 0 && entryIs(ret0[k], trimS(allowedIP[j]))))
+
+// ---------------------------------------------------------------- C30 candidate passwords of a user
+// Every configured password of the user is tried against the SAME response bytes (the checks never modify salt or response);
+// an accepted password is one of the user's configured passwords, and a stored-hash candidate has the '*' + 40 hex digits form.
+//@ property C30: (*UserManager).CheckPassword, (*UserManager).CheckHashPassword, (*UserManager).CheckSha2Password
+//@ trusted strings.HasPrefix
+//@   params s, prefix
+//@   pure-call
+//@   ensures ret0 ==> slen(s) >= slen(prefix)
+//@ trusted bytes.Equal
+//@   params a, b
+//@   pure-call
+//@   ensures ret0 ==> len(a) == len(b)
+//@ func (*UserManager).CheckPassword
+//@   requires u != nil
+//@   assigns \nothing
+//@   loop 0 invariant true
+//@   ensures ret0 ==> mem(u.users[user], ret1) && len(auth) == ite(slen(ret1) == 0, 0, 20)
+//@   ensures !ret0 ==> ret1 == ""
+//@ func (*UserManager).CheckHashPassword
+//@   requires u != nil
+//@   assigns \nothing
+//@   loop 0 invariant true
+//@   ensures ret0 ==> mem(u.users[user], ret1) && slen(ret1) == 41 && len(auth) == 20
+//@   ensures !ret0 ==> ret1 == ""
+//@ func (*UserManager).CheckSha2Password
+//@   requires u != nil
+//@   assigns \nothing
+//@   loop 0 invariant true
+//@   ensures ret0 ==> mem(u.users[user], ret1) && len(auth) == ite(slen(ret1) == 0, 0, 32)
+//@   ensures !ret0 ==> ret1 == ""
